@@ -27,6 +27,23 @@ def run(ctx):
     for _ in range(n_miss):
         kind, tx, line = rxlib.near_miss_line(rng)
         cases.append((kind, tx, line, True))
+    # long runs at a low rate: the forced end-of-message path (135 s timer) and what follows it
+    for j in range(4 if quick else 24):
+        H = samegen.gen_header(rng, nloc=1)
+        H2 = samegen.gen_header(rng, nloc=2)
+        tx = rxlib.Tx(rng, H=H, rate=rng.choice([8000] if quick else [8000, 11025]), impaired=False)
+        hdr3 = ",".join("B%s,S1" % rxlib.burst_hex(H) for _ in range(3))
+        k = j % 4
+        if k == 0:
+            script, kind, forbid = "S0.3," + hdr3 + ",S%d,B%s,S4,B%s,S3" % (rng.range(136, 141), rxlib.burst_hex(H2), rxlib.burst_hex(rng.bytes(30))), "timeout-then-lone-bursts", False
+        elif k == 1:
+            g = H[:rng.range(12, 33)]
+            script, kind, forbid = "S0.3,B%s,S1,B%s,S%d" % (rxlib.burst_hex(g), rxlib.burst_hex(g), rng.range(137, 142)), "garbled-pair-then-long-silence", True
+        elif k == 2:
+            script, kind, forbid = "S0.3," + hdr3 + ",S138," + ",".join("B%s,S1" % rxlib.burst_hex(b"NNNN") for _ in range(3)) + ",S2", "timeout-then-trailer", False
+        else:
+            script, kind, forbid = "S0.3,B%s,S%d,N3:2000,S1" % (rxlib.burst_hex(H), rng.range(136, 140)), "lone-burst-then-long-silence", True
+        cases.append((kind, tx, tx.line(script=script), forbid))
     res = rxlib.run_rx([c[2] for c in cases])
     dist, mism, nontriv, samples = {}, 0, 0, []
     for (kind, tx, line, forbid), r in zip(cases, res):
@@ -42,6 +59,8 @@ def run(ctx):
         bad = rxlib.oracle_justified(ev, tx.rate)
         if bad is None and forbid and any(e["kind"] == "som" for e in ev):
             bad = "audio of kind '%s' (no two agreeing SAME header bursts) produced a StartOfMessage" % kind
+        if bad is None and forbid and any(e["kind"] == "eom" for e in ev) and kind in ("garbled-pair-then-long-silence", "lone-burst-then-long-silence"):
+            bad = "audio of kind '%s' (no StartOfMessage, no NN burst) produced an EndOfMessage" % kind
         if bad:
             ctx.violation("property", bad, {"input": line, "kind": kind, "events": r["impl"][:3000]})
         if any(e["kind"] in ("burst", "som", "eom") for e in ev):
